@@ -3,7 +3,7 @@ import os
 import vcheck as V
 from props import common
 
-THEOREMS = ["C11_holds", "C11_total_power_query", "C11_hashes_unique", "C11_never_lost", "C11_identity_preserved", "C11_collision_refuted"]
+THEOREMS = ["C11_hashes_unique_inputs", "C11_never_lost_inputs", "C11_identity_preserved_inputs", "C11_holds", "C11_total_power_query", "C11_hashes_unique", "C11_never_lost", "C11_identity_preserved", "C11_collision_refuted"]
 PROPS_V = "theories/Props/C11.v"
 
 
